@@ -163,7 +163,7 @@ impl Check for C01 {
         }
     }
     fn rule(&self) -> String {
-        "each case = one seeded run: 2..4 simulated threads with generated programs (<=6 ops of lock/try_lock/yield, 0..3 tracked read-modify-writes per critical section) over 1..2 Mutexes; the decision stream picks the scheduling strategy (random/sticky/PCT/starvation), the thread at every atomic op, futex call and tracked access, the waiter a wake picks, up to 3 spurious futex returns / EINTRs, and spurious failures of weak compare-exchange operations (1/4 or 1/16, up to 4). non-trivial = at least one thread parked in futex wait AND >=2 context switches; distinct = distinct hash of the full event sequence (thread, point kind, values read)".into()
+        "each case = one seeded run: 2..4 simulated threads with generated programs (<=6 ops of lock/try_lock/yield, 0..3 tracked read-modify-writes per critical section) over 1..2 Mutexes; the decision stream picks the scheduling strategy (random/sticky/PCT/starvation), the thread at every atomic op, futex call and tracked access, the waiter a wake picks, up to 3 spurious futex returns / EINTRs, and spurious failures of weak compare-exchange operations (1/4 or 1/16, up to 4). private and shared futex operations use separate wait queues; after the last guard is gone try_lock must succeed. non-trivial = at least one thread parked in futex wait AND >=2 context switches; distinct = distinct hash of the full event sequence (thread, point kind, values read)".into()
     }
     fn assumptions(&self) -> Vec<String> {
         vec![
